@@ -273,6 +273,16 @@ macro_rules! rpc_side {
                     "ttl": t.validity.as_ref().map(|v| v.ttl).unwrap_or_default().to_string(),
                 })
             }
+            pub fn r_mint(t: &u5c::Tx) -> Vec<Value> {
+                let mut v = Vec::new();
+                for ma in &t.mint {
+                    for a in &ma.assets {
+                        let q: Option<u5c::BigInt> = $qty(a);
+                        v.push(json!([hex(&ma.policy_id), hex(&a.name), r_int(&q)]));
+                    }
+                }
+                v
+            }
             pub fn r_block(b: &u5c::Block) -> Value {
                 let h = b.header.as_ref();
                 json!({
@@ -363,6 +373,37 @@ fn tx_with_witness_datum(datum: &[u8]) -> Vec<u8> {
     t
 }
 
+/// a Babbage transaction minting `amount` of one asset: body {0: inputs, 1: outputs, 2: fee, 9: mint}
+fn tx_with_mint(amount: i64) -> Vec<u8> {
+    let mut t = Vec::new();
+    head(4, 4, &mut t);
+    head(5, 4, &mut t);
+    head(0, 0, &mut t);
+    head(4, 1, &mut t);
+    head(4, 2, &mut t);
+    cbor_bytes(&[0x66; 32], &mut t);
+    head(0, 0, &mut t);
+    head(0, 1, &mut t);
+    head(4, 1, &mut t);
+    t.extend_from_slice(&output_with_value(3_000_000));
+    head(0, 2, &mut t);
+    head(0, 180_000, &mut t);
+    head(0, 9, &mut t);
+    head(5, 1, &mut t);
+    cbor_bytes(&[0x77; 28], &mut t);
+    head(5, 1, &mut t);
+    cbor_bytes(b"mnt", &mut t);
+    if amount >= 0 {
+        head(0, amount as u64, &mut t);
+    } else {
+        head(1, (-1 - amount as i128) as u64, &mut t);
+    }
+    head(5, 0, &mut t);
+    t.push(0xf5);
+    t.push(0xf6);
+    t
+}
+
 /// a Babbage-era output whose value is [coin, {policy: {name: coin}}] (no assets when coin = 0)
 fn output_with_value(coin: u64) -> Vec<u8> {
     let mut o = Vec::new();
@@ -391,6 +432,17 @@ pub fn ints(args: &Args) {
     let mut out = Ndjson::create(args.get("out"));
     let (ma, mb) = (alpha::mapper(), beta::mapper());
     for v in &vecs {
+        if v.get("mint").is_some() {
+            let m: i64 = big_from_json(&v["mint"]["v"]).parse().unwrap_or_else(|_| die("mint vector does not fit i64"));
+            let txc = tx_with_mint(m);
+            let tx = MultiEraTx::decode_for_era(Era::Babbage, &txc).unwrap_or_else(|e| die(&format!("generated mint tx does not decode: {e}")));
+            for ver in ["v1alpha", "v1beta"] {
+                let r = catch(|| if ver == "v1alpha" { alpha::r_mint(&ma.map_tx(&tx)) } else { beta::r_mint(&mb.map_tx(&tx)) });
+                let q = r.ok().and_then(|x| x.get(0).map(|a| a[2].clone())).unwrap_or(json!({"cls": "missing"}));
+                out.ev(json!({"ev": "mint", "ver": ver, "l": v["mint"], "rpc": q}));
+            }
+            continue;
+        }
         if v.get("coin").is_some() {
             let c: u64 = big_from_json(&v["coin"]["v"]).parse().unwrap_or_else(|_| die("coin vector does not fit u64"));
             let ocbor = output_with_value(c);
